@@ -221,6 +221,8 @@ pub struct GenParams {
     pub delete_pct: u64,
     /// mask of an open known finding: never write Replace
     pub no_replace: bool,
+    /// occasionally write an 80 KiB value (needs a memtable of several MiB)
+    pub huge_values: bool,
 }
 
 impl Default for GenParams {
@@ -241,6 +243,7 @@ impl Default for GenParams {
             placement_pct: 35,
             delete_pct: 30,
             no_replace: false,
+            huge_values: false,
         }
     }
 }
@@ -328,6 +331,9 @@ impl<'a> Generator<'a> {
 
     fn value_len(&mut self) -> usize {
         let big_cap = (self.cfg.max_memtable_size / 24).min(3000).max(64);
+        if self.p.huge_values && self.r.chance(1, 60) {
+            return 80 * 1024 + self.r.range(0, 9) as usize;
+        }
         match self.r.below(20) {
             0 => 0,
             1 => 1,
